@@ -31,6 +31,12 @@ def call_closure(ex, clo, cargs, guard):
     ex.ctx.cur_guard = saved
     return v, rg
 
+def in_ranges(a, rng):
+    """membership of an integer in a union of closed ranges, decided from its interval where possible"""
+    if any(lo <= a.lo and a.hi <= hi for lo, hi in rng): return mk_bool(True)
+    if all(a.hi < lo or a.lo > hi for lo, hi in rng): return mk_bool(False)
+    return bv_of(zor(*[z3.And(a.t >= lo, a.t <= hi) for lo, hi in rng if not (a.hi < lo or a.lo > hi)]))
+
 def cell(ex, v):
     c = ex.ctx.new_act(); ex.ctx.frames[c] = {'e': v, '__ref': {}, '__act': c, '__fn': 'cell'}
     return Ref(c, 'e', [])
@@ -70,9 +76,10 @@ def struct_eq(ex, a, b):
     raise Inconclusive('struct_eq of %r %r' % (a, b))
 
 def closure_call(ex, callee, args, guard, site):
-    m = re.match(r'^<\{closure@.*\} as Fn(?:Once|Mut)?<.*>>::call(?:_once|_mut)?$', callee)
+    m = re.match(r'^<\{closure@.*\} as Fn(?:Once|Mut)?<.*>>::call(?:_once|_mut)?$', callee) or re.match(r'^<impl Fn.* as Fn(?:Once|Mut)?<.*>>::call(?:_once|_mut)?$', callee)
     if m:
         clo = ex.deref(args[0]); tup = args[1]
+        if not isinstance(clo, Closure): raise Inconclusive('call of a non-closure callable %r' % (clo,))
         return call_closure(ex, clo, tup.f, guard)
     return None
 
@@ -249,7 +256,7 @@ def _std_model(ex, c, args, guard, site):
         a = ex.deref(args[0]); fn = m.group(1)
         rng = {'is_ascii_digit': [(48, 57)], 'is_ascii': [(0, 127)], 'is_ascii_alphabetic': [(65, 90), (97, 122)], 'is_ascii_uppercase': [(65, 90)], 'is_ascii_lowercase': [(97, 122)],
                'is_ascii_alphanumeric': [(48, 57), (65, 90), (97, 122)], 'is_ascii_whitespace': [(9, 10), (12, 13), (32, 32)]}[fn]
-        return bv_of(zor(*[z3.And(a.t >= lo, a.t <= hi) for lo, hi in rng])), T
+        return in_ranges(a, rng), T
     m = re.match(r'^<(%s) as Ord>::(min|max)$' % INT, cs) or re.match(r'^std::cmp::Ord::(min|max)$', cs)
     if m and len(args) == 2 and isinstance(args[0], IV):
         a, b = args; fn = m.groups()[-1]
@@ -328,7 +335,7 @@ def _std_model(ex, c, args, guard, site):
             return merge(isgood, payload[0], v), zor(isgood.t, rg)
         if fn == 'map_err':
             clo = args[1]
-            if isgood.c is True: return En(o.disc, {0: payload, 1: [Opaque('e')]}, 'Result'), T
+            if isgood.c is True or not isinstance(clo, Closure): return En(o.disc, {0: payload, 1: [Opaque('e')]}, 'Result'), T
             v, rg = call_closure(ex, clo, [o.v.get(1, [Opaque('e')])[0]], zand(guard, znot(isgood.t)))
             return En(o.disc, {0: payload, 1: [v]}, 'Result'), zor(isgood.t, rg)
         if fn == 'map':
@@ -454,6 +461,18 @@ def _std_model(ex, c, args, guard, site):
         o = IV(z3.If(a.t < b.t, -1, z3.If(a.t == b.t, 0, 1)), 'i8', -1, 1)
         if m.group(2) == 'cmp': return o, T
         return En(mk_int(1, 'isize'), {1: [o]}, 'Option'), T
+    m = re.match(r'^<&?(%s) as (Add|Sub|Mul)<&?(?:%s)>>::(add|sub|mul)$' % (INT, INT), cs)
+    if m:
+        # by-reference operator impls forward to the primitive operator, which inherits the crate's overflow-checks setting
+        a = ex.deref(args[0]); b = ex.deref(args[1])
+        if ex.opts.get('overflow_checks', True):
+            r = ex.binop(m.group(2) + 'WithOverflow', a, b)
+            val, ovf = r.f
+            if ovf.c is True: ctx.panics.append((guard, site, 'attempt to %s with overflow' % m.group(3))); return None, F
+            if ovf.c is False: return val, T
+            ctx.panics.append((zand(guard, ovf.t), site, 'attempt to %s with overflow' % m.group(3)))
+            return val, znot(ovf.t)
+        return ex.binop(m.group(2), a, b), T
     m = re.match(r'^<&*(%s|char) as PartialOrd>::(lt|le|gt|ge)$' % INT, cs)
     if m:
         a = ex.deref(args[0]); b = ex.deref(args[1])
@@ -501,7 +520,7 @@ def _std_model(ex, c, args, guard, site):
                 return En(mk_int(1, 'isize'), {1: [cell(ex, it.arr.f[it.idx])]}, 'Option'), T
             return En(mk_int(0, 'isize'), {0: []}, 'Option'), T
     # ---- RangeInclusive<int> iteration with concrete bounds
-    m = re.match(r'^<RangeInclusive<(%s)> as IntoIterator>::into_iter$' % INT, cs) or re.match(r'^<std::ops::Range<(%s)> as IntoIterator>::into_iter$' % INT, cs)
+    m = re.match(r'^<(?:std::ops::)?RangeInclusive<(%s)> as IntoIterator>::into_iter$' % INT, cs) or re.match(r'^<std::ops::Range<(%s)> as IntoIterator>::into_iter$' % INT, cs)
     if m: return args[0], T
     m = re.match(r'^(?:std::ops::)?RangeInclusive::<(%s)>::new$' % INT, c)
     if m: return Agg([args[0], args[1], mk_bool(False)], 'struct:RangeInclusive'), T
